@@ -86,10 +86,73 @@ func formatChunkedString(chunk, indent string) string {
 	defer bufferPool.Put(buf)
 
 	buf.Reset()
-	for line := range strings.SplitSeq(chunk, "\n") {
-		buf.WriteString(indent + strings.TrimSpace(line) + "\n")
+	lines := strings.Split(chunk, "\n")
+	inside := linesInsideLongString(chunk, len(lines))
+	for i, line := range lines {
+		switch {
+		case inside[i]:
+			// continuation of a long string: the text belongs to the string value
+			buf.WriteString(line + "\n")
+		case i+1 < len(lines) && inside[i+1]:
+			buf.WriteString(indent + strings.TrimLeft(line, " \t") + "\n")
+		default:
+			buf.WriteString(indent + strings.TrimSpace(line) + "\n")
+		}
 	}
 	return buf.String()
+}
+
+// linesInsideLongString tells for each line of the chunk whether the line starts inside
+// a long string ({"..."} or {delimiter"..."delimiter}), such a line must be printed as it is.
+func linesInsideLongString(chunk string, n int) []bool {
+	inside := make([]bool, n)
+	line := 0
+	for i := 0; i < len(chunk); i++ {
+		switch c := chunk[i]; {
+		case c == '\n':
+			line++
+		case c == '"':
+			// double quoted string never spans lines
+			for i++; i < len(chunk) && chunk[i] != '"' && chunk[i] != '\n'; i++ {
+			}
+			if i < len(chunk) && chunk[i] == '\n' {
+				line++
+			}
+		case c == '#' || (c == '/' && i+1 < len(chunk) && chunk[i+1] == '/'):
+			for ; i+1 < len(chunk) && chunk[i+1] != '\n'; i++ {
+			}
+		case c == '/' && i+1 < len(chunk) && chunk[i+1] == '*':
+			end := strings.Index(chunk[i+2:], "*/")
+			if end < 0 {
+				return inside
+			}
+			line += strings.Count(chunk[i:i+2+end], "\n")
+			i += 2 + end + 1
+		case c == '{':
+			j := i + 1
+			for j < len(chunk) && (chunk[j] == '_' || chunk[j] >= '0' && chunk[j] <= '9' || chunk[j] >= 'a' && chunk[j] <= 'z' || chunk[j] >= 'A' && chunk[j] <= 'Z') {
+				j++
+			}
+			if j >= len(chunk) || chunk[j] != '"' {
+				continue
+			}
+			closer := "\"" + chunk[i+1:j] + "}"
+			end := strings.Index(chunk[j+1:], closer)
+			if end < 0 {
+				return inside
+			}
+			for k := j + 1; k < j+1+end; k++ {
+				if chunk[k] == '\n' {
+					line++
+					if line < n {
+						inside[line] = true
+					}
+				}
+			}
+			i = j + 1 + end + len(closer) - 1
+		}
+	}
+	return inside
 }
 
 // Format multiple line chunk string with specified indent preserving leading spaces.
@@ -98,7 +161,14 @@ func formatChunkedStringPreserveIndent(chunk, indent string) string {
 	defer bufferPool.Put(buf)
 
 	buf.Reset()
-	for line := range strings.SplitSeq(chunk, "\n") {
+	lines := strings.Split(chunk, "\n")
+	inside := linesInsideLongString(chunk, len(lines))
+	for i, line := range lines {
+		if inside[i] {
+			// continuation of a long string: the text belongs to the string value
+			buf.WriteString(line + "\n")
+			continue
+		}
 		buf.WriteString(indent + line + "\n")
 	}
 	return buf.String()
